@@ -13,7 +13,7 @@ LEVEL_TEXT = (
     "each propagation loop checks its own clock on every iteration and the cut only stops the loop (no fact is written on the cut"
     " edge, no duration arithmetic that can panic); the environments start from the sound seeds only; every fact is derived from"
     " already known operand facts (the operand-discipline, merge and transfer-table rules of C06/C07), so every prefix of the"
-    " iteration carries a subset of the fixpoint's facts."
+    " iteration carries a subset of the fixpoint's facts. What the cut records is consulted by no pass."
 )
 NOT_DECIDED = "nothing beyond C06/C07: C20 adds no runtime quantity of its own."
 ENGINE = "mirfacts+astq"
